@@ -51,5 +51,10 @@ def compute(req: dict) -> dict:
 
 
 if __name__ == "__main__":
-    req = json.load(sys.stdin)
-    json.dump(compute(req), sys.stdout)
+    import io
+
+    # the protocol itself is UTF-8 whatever the flavour's locale / PYTHONIOENCODING says
+    req = json.loads(sys.stdin.buffer.read().decode("utf-8"))
+    out = json.dumps(compute(req), ensure_ascii=True)
+    sys.stdout.buffer.write(out.encode("ascii"))
+    sys.stdout.buffer.flush()
